@@ -54,6 +54,9 @@ class Val:
     pass
 
 
+Z3_OWNER = {}     # name of a z3 string constant -> the Sym it stands for (data-flow checks read string terms back)
+
+
 class Sym(Val):
     """Opaque symbolic object with lazily materialised parts."""
 
@@ -102,6 +105,7 @@ class Sym(Val):
         r = self.root() if not self.over else self
         if r._str is None:
             r._str = z3.String("s%d" % r.id)
+            Z3_OWNER["s%d" % r.id] = r
         return r._str
 
     def __repr__(self):
@@ -945,7 +949,19 @@ class Engine:
         out = []
         for a in args:
             try:
-                out.append(self.peel(a))
+                v = self.peel(a)
+                if isinstance(v, Agg) and v.kind == "closure" and any(isinstance(f, Ref) and f.frame is not None for f in v.fields):
+                    # captures by reference: record what they refer to now (the frame may be gone when the trace is read)
+                    fs = []
+                    for f in v.fields:
+                        if isinstance(f, Ref) and f.frame is not None:
+                            try:
+                                f = Ref(val=Cell(self.deref(f)))
+                            except (Inconclusive, EndPath):
+                                pass
+                        fs.append(f)
+                    v = Agg(v.name, fs, v.variant, v.vindex, v.kind, v.body_path, v.names)
+                out.append(v)
             except (Inconclusive, EndPath):
                 out.append(a)
         return out
@@ -1024,7 +1040,7 @@ class Engine:
                 ea, eb = self.to_str(la), self.to_str(lb)
                 e = ea == eb
                 res = Scalar(e if m.group(3) == "eq" else z3.Not(e))
-                self.events.append(Event("streq", c, [la, lb], res, site, rargs=[la, lb]))
+                self.events.append(Event("streq", c, [la, lb], res, site, extra=e, rargs=[la, lb]))     # extra: the equality term, whether the source wrote == or !=
                 return res
             # field-less enum equality: compare discriminants when a derived impl exists in the dump
             tn = base_type_name(lt)
@@ -1163,6 +1179,37 @@ class Engine:
                     return args[1]
                 if op == "ok":
                     return self.mk_enum("Option", "None", [])
+        # --- byte-order conversions of a single byte are the identity ---
+        if re.search(r"core::num::(to_be|to_le|from_be|from_le|swap_bytes)$", c) and len(args) == 1 and (ret_ty or "").strip() in ("u8", "i8"):
+            return args[0]
+        # --- Iterator::any / all with a closure whose body is in the dump: the loop `for x in it { if f(x) {..} }` it abbreviates,
+        #     unrolled up to the loop bound, with the same `next` events a written-out loop produces ---
+        ma = re.search(r"as Iterator>::(any|all)$", c)
+        if ma and len(args) == 2:
+            clos = args[1]
+            if isinstance(clos, Ref):
+                try:
+                    clos = self.deref(clos)
+                except (Inconclusive, EndPath):
+                    clos = None
+            if isinstance(clos, Agg) and clos.kind == "closure" and clos.body_path and clos.body_path in self.idx.files:
+                want = ma.group(1) == "any"
+                self.inlined.add(clos.body_path)
+                for _k in range(self.loop_bound + 1):
+                    nx = self.fresh(("ret", c.rsplit("::", 1)[0] + "::next"))
+                    ev = Event("call", c.rsplit("::", 1)[0] + "::next", [args[0]], nx, site, rargs=self.snapshot([args[0]]))
+                    self.events.append(ev)
+                    if self.event_hook is not None:
+                        self.event_hook(self, ev)
+                    lab = self.choose([("iter-some", nx.discr() == 1), ("iter-none", nx.discr() == 0)])
+                    if lab == "iter-none":
+                        return Scalar(z3.BoolVal(not want))
+                    res = self.run_body(self.idx.body(clos.body_path), [Ref(val=Cell(clos)), nx.child(("v", "Some", 0))], depth + 1)
+                    cond = self.to_bool(res)
+                    lab = self.choose([("pred-true", cond), ("pred-false", z3.Not(cond))])
+                    if (lab == "pred-true") == want:
+                        return Scalar(z3.BoolVal(want))
+                raise EndPath("cut", "loop bound %d exceeded in Iterator::%s" % (self.loop_bound, ma.group(1)))
         # --- Result::map_err / Option::ok_or on symbolic values: the variant and the Ok payload are preserved ---
         if re.search(r"Result::map_err$", c) and args and isinstance(args[0], Sym):
             r0 = args[0]
